@@ -1,8 +1,304 @@
 (* C15 — Timestamp/Duration <-> datetime/timedelta conversion is exact and normalised.
-   Only property-level statements here; every proof is one [exact] of a lemma of Proofs/TimeP.v. *)
+
+   Only property-level statements here; every proof is one [exact] of a lemma of Proofs/TimeP.v,
+   followed by Print Assumptions.  The model (Model/Time.v) mirrors the code AFTER
+   fixes/c15-duration-integer.patch and fixes/c15-json-forms.patch; the functions ending in
+   [_pinned] mirror the float arithmetic of the pinned commit (binary64 modelled exactly over Z)
+   and only occur in the [_refuted] theorems.
+
+   Quantification: every theorem is over ALL of Z (instants / spans in microseconds, any UTC offset,
+   any field number below 2^29); [in_ts_range] (years 0001-9999) and [in_dur_range]
+   (+-315,576,000,000 s) appear only where Python itself raises OverflowError outside them.
+   Not covered by theorems (oracles, tied by the harness only): the calendar text of
+   isoformat/isoparse - the JSON statements take it as the argument [cal]. *)
 From BP Require Import Base.Prelude Model.Varint Model.Scalar Model.Time Spec.Varint Spec.Time.
 From BP Require Import Proofs.TimeP.
 
-Theorem C15_ts_pair : forall dt, from_datetime dt = ts_of_us (instant dt).
+(* ------------------------------------------------------------------------------------------ *)
+(* Timestamp                                                                                    *)
+(* ------------------------------------------------------------------------------------------ *)
+(* from_datetime yields the reference's pair for the instant, whatever the instant *)
+Theorem C15_ts_exact : forall dt, from_datetime dt = ts_of_us (instant dt).
 Proof. exact from_datetime_is_spec. Qed.
-Print Assumptions C15_ts_pair.
+Print Assumptions C15_ts_exact.
+
+(* ... which is the unique pair denoting the instant with nanos in [0, 1e9) (and whole microseconds) *)
+Theorem C15_ts_normal_form : forall t, let '(s, n) := ts_of_us t in ts_normal s n /\ denotes_us s n t /\ n mod 1000 = 0.
+Proof. exact ts_of_us_normal. Qed.
+Print Assumptions C15_ts_normal_form.
+
+Theorem C15_ts_pair_unique : forall s n s' n' t,
+  ts_normal s n -> denotes_us s n t -> ts_normal s' n' -> denotes_us s' n' t -> s = s' /\ n = n'.
+Proof. exact ts_pair_unique. Qed.
+Print Assumptions C15_ts_pair_unique.
+
+(* any fixed UTC offset: only the instant matters, for the pair and for the bytes *)
+Theorem C15_ts_tz : forall a b, instant a = instant b -> from_datetime a = from_datetime b.
+Proof. exact from_datetime_tz. Qed.
+Print Assumptions C15_ts_tz.
+
+Theorem C15_ts_tz_bytes : forall fno a b, instant a = instant b -> bytes_ts fno a = bytes_ts fno b.
+Proof. exact bytes_ts_tz. Qed.
+Print Assumptions C15_ts_tz_bytes.
+
+(* the same wall-clock-independent instant written at two offsets o, o' *)
+Theorem C15_ts_offset_cancels : forall w o o', from_datetime (mkdt (w + o) o) = from_datetime (mkdt (w + o') o').
+Proof. exact from_datetime_shift. Qed.
+Print Assumptions C15_ts_offset_cancels.
+
+(* decodes back to the identical instant (returned in UTC), over the whole range *)
+Theorem C15_ts_roundtrip_pair : forall dt, in_ts_range (instant dt) ->
+  let '(s, n) := from_datetime dt in to_datetime s n = Ok (mkdt (instant dt) 0).
+Proof. exact to_from_datetime. Qed.
+Print Assumptions C15_ts_roundtrip_pair.
+
+(* every Timestamp in range, sub-microsecond nanos included, decodes like the reference's ToDatetime;
+   outside the range it is OverflowError, never a wrong value *)
+Theorem C15_ts_decode : forall s n, in_ts_range (ts_to_us s n) -> to_datetime s n = Ok (mkdt (ts_to_us s n) 0).
+Proof. exact to_datetime_is_spec. Qed.
+Print Assumptions C15_ts_decode.
+
+Theorem C15_ts_decode_overflow : forall s n,
+  0 <= n < 1000000000 -> ~ in_ts_range (ts_to_us s n) -> to_datetime s n = Err EOverflow.
+Proof. exact to_datetime_out_of_range. Qed.
+Print Assumptions C15_ts_decode_overflow.
+
+(* bytes of a message with one datetime field: the canonical proto3 bytes of the reference's pair,
+   and parse(bytes).field is the same instant *)
+Theorem C15_ts_wire_roundtrip : forall fno dt, 0 < fno < 2 ^ 29 -> in_ts_range (instant dt) ->
+  exists bs, bytes_ts fno dt = Ok bs /\ ts_field_wire fno (instant dt) bs /\ parse_ts fno bs = Ok (mkdt (instant dt) 0).
+Proof. exact bytes_parse_ts. Qed.
+Print Assumptions C15_ts_wire_roundtrip.
+
+(* what any conforming writer sends for a pair (s, n) is decoded as to_datetime s n *)
+Theorem C15_ts_wire_any_writer : forall fno s n inner bs,
+  0 < fno < 2 ^ 29 -> - 2 ^ 63 <= s < 2 ^ 63 -> - 2 ^ 31 <= n < 2 ^ 31 ->
+  sn_wire s n inner -> msg_field_wire fno inner bs -> parse_ts fno bs = to_datetime s n.
+Proof. exact parse_ts_wire. Qed.
+Print Assumptions C15_ts_wire_any_writer.
+
+(* ------------------------------------------------------------------------------------------ *)
+(* Duration                                                                                     *)
+(* ------------------------------------------------------------------------------------------ *)
+Theorem C15_dur_exact : forall d, from_timedelta d = dur_of_us d.
+Proof. exact from_timedelta_is_spec. Qed.
+Print Assumptions C15_dur_exact.
+
+(* seconds and nanos never of opposite sign, |nanos| < 1e9, and the pair is unique *)
+Theorem C15_dur_normal_form : forall d, let '(s, n) := dur_of_us d in dur_normal s n /\ denotes_us s n d /\ n mod 1000 = 0.
+Proof. exact dur_of_us_normal. Qed.
+Print Assumptions C15_dur_normal_form.
+
+Theorem C15_dur_pair_unique : forall s n s' n' d,
+  dur_normal s n -> denotes_us s n d -> dur_normal s' n' -> denotes_us s' n' d -> s = s' /\ n = n'.
+Proof. exact dur_pair_unique. Qed.
+Print Assumptions C15_dur_pair_unique.
+
+Theorem C15_dur_roundtrip_pair : forall d, in_dur_range d ->
+  let '(s, n) := from_timedelta d in to_timedelta s n = Ok d.
+Proof. exact to_from_timedelta_range. Qed.
+Print Assumptions C15_dur_roundtrip_pair.
+
+(* ... and in fact for every timedelta Python can hold *)
+Theorem C15_dur_roundtrip_pair_any_timedelta : forall d, Z.abs (td_days d) <= 999999999 ->
+  let '(s, n) := from_timedelta d in to_timedelta s n = Ok d.
+Proof. exact to_from_timedelta. Qed.
+Print Assumptions C15_dur_roundtrip_pair_any_timedelta.
+
+(* every Duration decodes like the reference's ToTimedelta (sub-microsecond part toward zero) *)
+Theorem C15_dur_decode : forall s n, Z.abs (td_days (dur_to_us s n)) <= 999999999 -> to_timedelta s n = Ok (dur_to_us s n).
+Proof. exact to_timedelta_is_spec. Qed.
+Print Assumptions C15_dur_decode.
+
+Theorem C15_dur_wire_roundtrip : forall fno d, 0 < fno < 2 ^ 29 -> in_dur_range d ->
+  exists bs, bytes_dur fno d = Ok bs /\ dur_field_wire fno d bs /\ parse_dur fno bs = Ok d.
+Proof. exact bytes_parse_dur_range. Qed.
+Print Assumptions C15_dur_wire_roundtrip.
+
+Theorem C15_dur_wire_any_writer : forall fno s n inner bs,
+  0 < fno < 2 ^ 29 -> - 2 ^ 63 <= s < 2 ^ 63 -> - 2 ^ 31 <= n < 2 ^ 31 ->
+  sn_wire s n inner -> msg_field_wire fno inner bs -> parse_dur fno bs = to_timedelta s n.
+Proof. exact parse_dur_wire. Qed.
+Print Assumptions C15_dur_wire_any_writer.
+
+(* ------------------------------------------------------------------------------------------ *)
+(* the two-field message on the wire                                                            *)
+(* ------------------------------------------------------------------------------------------ *)
+(* encoder meets the proto3 wire specification (zero fields omitted, negatives as 64-bit two's
+   complement), decoder inverts it, at most 22 bytes *)
+Theorem C15_pair_wire : forall s n, - 2 ^ 63 <= s < 2 ^ 63 -> - 2 ^ 31 <= n < 2 ^ 31 ->
+  exists bs, bytes_sn s n = Ok bs /\ sn_wire s n bs /\ parse_sn bs = Ok (s, n) /\ (length bs <= 22)%nat /\
+             (bs = [] <-> s = 0 /\ n = 0).
+Proof. exact bytes_parse_sn. Qed.
+Print Assumptions C15_pair_wire.
+
+(* the wire specification determines the bytes: ours are the reference's *)
+Theorem C15_pair_wire_unique : forall s n a b, sn_wire s n a -> sn_wire s n b -> a = b.
+Proof. exact sn_wire_unique. Qed.
+Print Assumptions C15_pair_wire_unique.
+
+(* len(m) walks the same way as bytes(m) *)
+Theorem C15_len_ts : forall fno dt, match bytes_ts fno dt, len_ts fno dt with
+                                    | Ok b, Ok n => n = Zlength b | Err a, Err b => a = b | _, _ => False end.
+Proof. exact len_ts_bytes. Qed.
+Print Assumptions C15_len_ts.
+
+Theorem C15_len_dur : forall fno d, match bytes_dur fno d, len_dur fno d with
+                                    | Ok b, Ok n => n = Zlength b | Err a, Err b => a = b | _, _ => False end.
+Proof. exact len_dur_bytes. Qed.
+Print Assumptions C15_len_dur.
+
+(* the decoder model is total on arbitrary bytes (its fuel is never the reason for an error) *)
+Theorem C15_parse_ts_total : forall fno bs, parse_ts fno bs <> Err EFuel.
+Proof. exact parse_ts_no_fuel. Qed.
+Print Assumptions C15_parse_ts_total.
+
+Theorem C15_parse_dur_total : forall fno bs, parse_dur fno bs <> Err EFuel.
+Proof. exact parse_dur_no_fuel. Qed.
+Print Assumptions C15_parse_dur_total.
+
+(* ------------------------------------------------------------------------------------------ *)
+(* JSON forms                                                                                   *)
+(* ------------------------------------------------------------------------------------------ *)
+(* RFC 3339 with 0 / 3 / 6 fractional digits and "Z"; never the broken fourth branch.
+   [cal] is the calendar text of the whole second in UTC (oracle). *)
+Theorem C15_json_ts : forall cal dt, timestamp_to_json cal dt = Ok (ts_json cal (snd (ts_of_us (instant dt)))).
+Proof. exact timestamp_to_json_is_spec. Qed.
+Print Assumptions C15_json_ts.
+
+(* reading the fraction back gives the microsecond that was written *)
+Theorem C15_json_ts_roundtrip : forall u, 0 <= u < 1000000 -> ts_suffix_parse (frac (u * 1000) ++ [cZ]) = Some u.
+Proof. exact ts_suffix_roundtrip. Qed.
+Print Assumptions C15_json_ts_roundtrip.
+
+(* Duration: the reference's decimal-seconds string, except for whole seconds (next theorem) *)
+Theorem C15_json_dur : forall d, d mod 1000000 <> 0 ->
+  delta_to_json d = dur_json (fst (dur_of_us d)) (snd (dur_of_us d)).
+Proof. exact delta_to_json_is_spec. Qed.
+Print Assumptions C15_json_dur.
+
+(* known finding K15-1: whole seconds are written "N.000s" where the reference writes "Ns" *)
+Theorem C15_json_dur_whole_seconds_refuted :
+  exists d, in_dur_range d /\ d mod 1000000 = 0 /\ delta_to_json d <> dur_json (fst (dur_of_us d)) (snd (dur_of_us d)) /\
+            dur_parse (delta_to_json d) = Some (dur_of_us d).
+Proof. exact whole_seconds_refuted. Qed.
+Print Assumptions C15_json_dur_whole_seconds_refuted.
+
+(* every string written - whole seconds included - is read by a conforming reader as the reference's pair *)
+Theorem C15_json_dur_read_by_reference : forall d, dur_parse (delta_to_json d) = Some (dur_of_us d).
+Proof. exact dur_parse_delta_to_json. Qed.
+Print Assumptions C15_json_dur_read_by_reference.
+
+(* from_dict reads back exactly what to_dict wrote *)
+Theorem C15_json_dur_roundtrip : forall d, in_dur_range d -> parse_duration (delta_to_json d) = Ok d.
+Proof. exact parse_duration_delta_to_json_range. Qed.
+Print Assumptions C15_json_dur_roundtrip.
+
+(* ------------------------------------------------------------------------------------------ *)
+(* the pinned commit violates the full statement (exact binary64 model of its float arithmetic) *)
+(* ------------------------------------------------------------------------------------------ *)
+(* negative span with a fraction: opposite signs, and the round trip returns another value *)
+Theorem C15_dur_negfrac_refuted :
+  exists d, in_dur_range d /\ from_timedelta_pinned d <> dur_of_us d /\
+            ~ dur_normal (fst (from_timedelta_pinned d)) (snd (from_timedelta_pinned d)) /\
+            (do b <- bytes_dur_pinned 1 d; parse_dur_pinned 1 b) <> Ok d.
+Proof. exact negfrac_refuted. Qed.
+Print Assumptions C15_dur_negfrac_refuted.
+
+(* -1 us is encoded as (0, 999999000) and comes back as +0.999999 s *)
+Theorem C15_dur_minus_one_us_refuted :
+  exists d, in_dur_range d /\ from_timedelta_pinned d = (0, 999999000) /\ dur_of_us d = (0, -1000) /\
+            (do b <- bytes_dur_pinned 1 d; parse_dur_pinned 1 b) = Ok 999999.
+Proof. exact minus_one_us_refuted. Qed.
+Print Assumptions C15_dur_minus_one_us_refuted.
+
+(* beyond 2^53 us the pair no longer denotes the span *)
+Theorem C15_dur_2p53_refuted :
+  exists d, in_dur_range d /\ 0 < d /\ from_timedelta_pinned d <> dur_of_us d /\
+            ~ denotes_us (fst (from_timedelta_pinned d)) (snd (from_timedelta_pinned d)) d.
+Proof. exact two_p53_refuted. Qed.
+Print Assumptions C15_dur_2p53_refuted.
+
+(* near the range end the seconds are rounded up *)
+Theorem C15_dur_range_end_refuted :
+  exists d, in_dur_range d /\ from_timedelta_pinned d = (315576000000, 0) /\ dur_of_us d = (315575999999, 999999000).
+Proof. exact range_end_refuted. Qed.
+Print Assumptions C15_dur_range_end_refuted.
+
+(* sub-microsecond nanos were rounded half-to-even, the reference drops them *)
+Theorem C15_dur_subus_rounding_refuted :
+  exists s n, dur_normal s n /\ to_timedelta_pinned s n <> Ok (dur_to_us s n) /\ to_timedelta s n = Ok (dur_to_us s n).
+Proof. exact subus_rounding_refuted. Qed.
+Print Assumptions C15_dur_subus_rounding_refuted.
+
+(* "1e-06s": not a proto3 JSON duration, rejected by a conforming reader *)
+Theorem C15_dur_json_exp_refuted :
+  exists d, in_dur_range d /\ delta_to_json_pinned d <> dur_json (fst (dur_of_us d)) (snd (dur_of_us d)) /\
+            dur_parse (delta_to_json_pinned d) = None.
+Proof. exact json_exp_refuted. Qed.
+Print Assumptions C15_dur_json_exp_refuted.
+
+(* JSON through floats loses microseconds both ways *)
+Theorem C15_dur_json_precision_refuted :
+  exists d, in_dur_range d /\ dur_parse (delta_to_json_pinned d) <> Some (dur_of_us d) /\
+            parse_duration_pinned (delta_to_json d) <> Ok d /\ parse_duration (delta_to_json d) = Ok d.
+Proof. exact json_precision_refuted. Qed.
+Print Assumptions C15_dur_json_precision_refuted.
+
+(* a UTC offset that is not a whole number of seconds: the pinned code prints the local fraction *)
+Theorem C15_ts_json_offset_refuted :
+  exists cal dt, in_ts_range (instant dt) /\
+    timestamp_to_json_pinned cal dt <> Ok (ts_json cal (snd (ts_of_us (instant dt)))) /\
+    timestamp_to_json cal dt = Ok (ts_json cal (snd (ts_of_us (instant dt)))).
+Proof. exact ts_json_offset_refuted. Qed.
+Print Assumptions C15_ts_json_offset_refuted.
+
+(* ------------------------------------------------------------------------------------------ *)
+(* non-vacuity: concrete values meet the hypotheses and show the expected results               *)
+(* ------------------------------------------------------------------------------------------ *)
+Example C15_ex_ranges : in_ts_range (-1) /\ in_ts_range TS_MIN_US /\ in_ts_range TS_MAX_US /\
+                        in_dur_range (-1500000) /\ in_dur_range (315576000000 * 1000000) /\ in_dur_range (2 ^ 53 + 1).
+Proof. unfold in_ts_range, in_dur_range, TS_MIN_US, TS_MAX_US, DUR_MAX_S. lia. Qed.
+
+(* 1969-12-31T23:59:59.999999Z, and the same instant written at +05:30 *)
+Example C15_ex_ts_pre1970 : from_datetime (mkdt (-1) 0) = (-1, 999999000) /\
+                            from_datetime (mkdt (-1 + 19800000000) 19800000000) = (-1, 999999000).
+Proof. vm_compute. split; reflexivity. Qed.
+
+Example C15_ex_ts_bytes :
+  bytes_ts 1 (mkdt 1500000 0) = Ok [x0a; x08; x08; x01; x10; x80; xca; xb5; xee; x01] /\
+  parse_ts 1 [x0a; x08; x08; x01; x10; x80; xca; xb5; xee; x01] = Ok (mkdt 1500000 0) /\
+  parse_ts 1 [x0a; x08; x10; x80; xca; xb5; xee; x01; x08; x01] = Ok (mkdt 1500000 0).  (* fields swapped *)
+Proof. vm_compute. repeat split. Qed.
+
+Example C15_ex_ts_range_ends :
+  (do b <- bytes_ts 1 (mkdt TS_MAX_US 0); parse_ts 1 b) = Ok (mkdt TS_MAX_US 0) /\
+  (do b <- bytes_ts 1 (mkdt TS_MIN_US 0); parse_ts 1 b) = Ok (mkdt TS_MIN_US 0) /\
+  to_datetime 253402300800 0 = Err EOverflow.
+Proof. vm_compute. repeat split. Qed.
+
+Example C15_ex_dur : from_timedelta (-1500000) = (-1, -500000000) /\ from_timedelta (-1) = (0, -1000) /\
+                     from_timedelta (2 ^ 53 + 1) = (9007199254, 740993000) /\
+                     (do b <- bytes_dur 1 (-1500000); parse_dur 1 b) = Ok (-1500000) /\
+                     (do b <- bytes_dur 2047 (315576000000 * 1000000 - 1); parse_dur 2047 b) = Ok (315576000000 * 1000000 - 1).
+Proof. vm_compute. repeat split. Qed.
+
+Example C15_ex_json :
+  delta_to_json (-1500000) = [x2d; x31; x2e; x35; x30; x30; x73] (* "-1.500s" *) /\
+  delta_to_json 1 = [x30; x2e; x30; x30; x30; x30; x30; x31; x73] (* "0.000001s" *) /\
+  parse_duration [x2d; x31; x2e; x35; x30; x30; x73] = Ok (-1500000) /\
+  timestamp_to_json [x54] (mkdt 1500000 0) = Ok [x54; x2e; x35; x30; x30; x5a] (* cal ++ ".500Z" *) /\
+  ts_suffix_parse [x2e; x35; x30; x30; x5a] = Some 500000.
+Proof. vm_compute. repeat split. Qed.
+
+Example C15_ex_wire_hyps : sn_wire 1 500000000 [x08; x01; x10; x80; xca; xb5; xee; x01] /\
+                           msg_field_wire 1 [x08; x01] [x0a; x02; x08; x01].
+Proof.
+  assert (C : forall n bs, varint_shape bs -> varint_value bs = n -> (length bs = 1%nat \/ last bs x00 <> x00) -> canonical n bs)
+    by (intros; repeat split; assumption).
+  split.
+  - exists [x08; x01], [x10; x80; xca; xb5; xee; x01]. split; [reflexivity|]. split; right; (split; [lia|]).
+    + exists [x01]. split; [reflexivity|]. apply C; cbn; try lia; try (left; reflexivity).
+    + exists [x80; xca; xb5; xee; x01]. split; [reflexivity|]. apply C; cbn; try lia; try (right; discriminate).
+  - exists [x0a], [x02]. split; [reflexivity|]. split; apply C; cbn; try lia; try (left; reflexivity).
+Qed.
